@@ -19,6 +19,7 @@ import ast
 
 from ..astutil import attr_writes, call_name, calls, dotted, param_names, stmts, walk_local
 from ..cfg import CFG
+from ..exprnorm import summarize
 from ..core import AnalysisError, Mutant
 from ..program import ClassIndex
 
@@ -182,6 +183,173 @@ def quoting_guard_for(guards, kind, lit):
     return None
 
 
+def escape_decision_table(ctx, esc, pname, triggers, anywhere):
+    """_escape decides by predicates on the value only.  Its body is composed into one conditional expression; the
+    predicates the *reader* is sensitive to (line-start characters and prefixes, separator and quote characters, the empty
+    string) span a finite space of value classes; for every consistent class the outcome of _escape (bare / 'quoted' /
+    "quoted" / text field) is computed from the expression and checked against what the reader can read back.  The
+    result does not depend on how the conditions are arranged (elif chain, merged `or`, early returns, named constants)."""
+    import itertools
+    sm = summarize(esc)
+    ctx.need(sm.result is not None and not sm.guards, "_escape is a pure decision over its argument")
+    # ---- atoms of the reader's sensitivity
+    firsts = sorted({lit for (kind, lit) in triggers if kind == "char" and lit not in ("'", '"')})
+    prefixes = sorted({lit for (kind, lit) in triggers if kind == "prefix"})
+    ins = sorted(anywhere)
+    atoms = [("empty",)] + [("in", c) for c in ins] + [("first", c) for c in firsts] + [("prefix", p) for p in prefixes]
+    free = []
+
+    def atom_of(test, val):
+        """truth of a test of _escape under valuation `val` (dict atom -> bool); unknown predicates become free variables"""
+        if isinstance(test, ast.BoolOp):
+            vs = [atom_of(t, val) for t in test.values]
+            return all(vs) if isinstance(test.op, ast.And) else any(vs)
+        if isinstance(test, ast.UnaryOp) and isinstance(test.op, ast.Not):
+            if isinstance(test.operand, ast.Name) and test.operand.id == pname:
+                return val[("empty",)]
+            return not atom_of(test.operand, val)
+        if isinstance(test, ast.Compare) and len(test.ops) == 1:
+            l, op, r = test.left, test.ops[0], test.comparators[0]
+            neg = isinstance(op, (ast.NotIn, ast.NotEq))
+            res = None
+            if isinstance(op, (ast.In, ast.NotIn)) and isinstance(l, ast.Constant) and isinstance(r, ast.Name) and r.id == pname:
+                res = val.get(("in", l.value))
+                if res is None:
+                    res = val.setdefault(("free", "in:" + repr(l.value)), None)
+            elif isinstance(op, (ast.Eq, ast.NotEq)) and isinstance(l, ast.Call) and call_name(l) == "len" and isinstance(r, ast.Constant):
+                res = val[("empty",)] if r.value == 0 else None
+            elif isinstance(l, ast.Subscript) and isinstance(l.value, ast.Name) and l.value.id == pname \
+                    and isinstance(l.slice, ast.Constant) and l.slice.value == 0:
+                try:
+                    cs = ast.literal_eval(r)
+                    cs = [cs] if isinstance(cs, str) else list(cs)
+                except Exception:
+                    cs = None
+                if cs is not None and isinstance(op, (ast.In, ast.NotIn, ast.Eq, ast.NotEq)):
+                    res = False
+                    for c in cs:
+                        v = val.get(("first", c))
+                        if v is None:
+                            v = val.setdefault(("free", "first:" + repr(c)), None)
+                        res = res or bool(v)
+            if res is None:
+                key = ("free", ast.unparse(test))
+                res = val.setdefault(key, None)
+            return (not res) if neg else bool(res)
+        if isinstance(test, ast.Call) and isinstance(test.func, ast.Attribute) and test.func.attr == "startswith" and test.args:
+            base = test.func.value
+            lowered = isinstance(base, ast.Call) and isinstance(base.func, ast.Attribute) and base.func.attr in ("lower", "casefold")
+            if lowered:
+                base = base.func.value
+            try:
+                ps = ast.literal_eval(test.args[0])
+                ps = [ps] if isinstance(ps, str) else list(ps)
+            except Exception:
+                ps = None
+            if isinstance(base, ast.Name) and base.id == pname and ps is not None:
+                out = False
+                for p_ in ps:
+                    v = val.get(("prefix", p_))
+                    if v is None or (not v and lowered):
+                        # the reader-side predicate is false or unknown: the writer's (case-insensitive / other) test is free
+                        v = bool(val.setdefault(("free", "prefix:" + p_), None)) or bool(v)
+                    out = out or bool(v)
+                return out
+        key = ("free", ast.unparse(test))
+        return bool(val.setdefault(key, None))
+
+    def outcome(e, val):
+        while isinstance(e, ast.IfExp):
+            e = e.body if atom_of(e.test, val) else e.orelse
+        if isinstance(e, ast.Call) and call_name(e) == "_multiline":
+            return "text-field"
+        if isinstance(e, ast.Name) and e.id == pname:
+            return "bare"
+        if isinstance(e, ast.Constant) and e.value in ("''", '""'):
+            return "quoted-empty"
+        if isinstance(e, ast.BinOp):
+            consts = [c.value for c in ast.walk(e) if isinstance(c, ast.Constant) and isinstance(c.value, str)]
+            if consts in (["'", "'"], ['"', '"']) and any(isinstance(n, ast.Name) and n.id == pname for n in ast.walk(e)):
+                return "quoted-" + consts[0]
+        return "other:" + ast.unparse(e)[:30]
+
+    def consistent(val):
+        if val[("empty",)]:
+            return not any(v for k, v in val.items() if k != ("empty",) and k[0] != "free")
+        fs = [c for c in firsts if val[("first", c)]]
+        if len(fs) > 1:
+            return False
+        for c in fs:
+            if ("in", c) in val and not val[("in", c)]:
+                return False
+        ps = [p_ for p_ in prefixes if val[("prefix", p_)]]
+        if len(ps) > 1:
+            return False
+        for p_ in ps:
+            if any(c != p_[0] for c in fs):
+                return False
+        return True
+
+    results = []     # (valuation, outcome)
+    for bits in itertools.product([False, True], repeat=len(atoms)):
+        base = dict(zip(atoms, bits))
+        if not consistent(base):
+            continue
+        # discover the free variables this valuation's path depends on, then enumerate them
+        pending = [dict(base)]
+        seen = set()
+        while pending:
+            val = pending.pop()
+            out = outcome(sm.result, val)
+            unset = [k for k, v in val.items() if k[0] == "free" and v is None]
+            if unset:
+                k = unset[0]
+                for b in (False, True):
+                    v2 = {kk: (vv if not (kk[0] == "free" and vv is None) else None) for kk, vv in val.items()}
+                    v2[k] = b
+                    key = tuple(sorted((str(a), str(bv)) for a, bv in v2.items()))
+                    if key not in seen:
+                        seen.add(key)
+                        pending.append(v2)
+                continue
+            results.append((val, out))
+    ctx.floor("escape-value-classes", len(results), 100)
+    ctx.count("escape-value-classes", len(results))
+
+    def show_val(val):
+        return ", ".join((k[0] + " " + repr(k[1]) if len(k) > 1 else k[0]) for k, v in sorted(val.items(), key=str) if v and k[0] != "free") or "plain"
+
+    def check(rule, construct, pred_val, good, reason, line):
+        bad = [(v, o) for v, o in results if pred_val(v) and not good(o, v)]
+        ctx.ob(rule, CIF, "_escape", construct, not bad,
+               reason + (f" - e.g. a value that is [{show_val(bad[0][0])}] is written {bad[0][1]}" if bad else ""), line)
+
+    for (kind, lit), sites in sorted(triggers.items()):
+        if lit in ("'", '"'):
+            continue
+        readers = ",".join(sorted({fn for fn, _ in sites}))
+        key = ("first", lit) if kind == "char" else ("prefix", lit)
+        check("R1.line-start-quoted", f"{kind} {lit!r} (read by {readers})", lambda v, key=key: v.get(key), lambda o, v: o != "bare",
+              f"the reader treats a line starting with {lit!r} specially ({readers}); _escape must not write such a value unquoted "
+              "(in a looped category the first column starts the line)", sites[0][1].lineno)
+    for ch in ins:
+        check("R1.separator-quoted", f"{ch!r} in value", lambda v, ch=ch: v.get(("in", ch)), lambda o, v: o != "bare",
+              f"the tokenizer splits on / interprets {ch!r}: a value containing it must not be written bare", esc.lineno)
+    for q in ("'", '"'):
+        if ("in", q) in atoms:
+            check("R1.quote-char-absent", f"value containing {q!r} is not wrapped in {q!r}", lambda v, q=q: v.get(("in", q)),
+                  lambda o, v, q=q: o != "quoted-" + q,
+                  f"a value wrapped in {q!r} must not itself contain {q!r} (followed by a blank the token ends early)", esc.lineno)
+    if ("in", "'") in atoms and ("in", '"') in atoms:
+        check("R1.both-quotes-text-field", "both quote characters in value", lambda v: v.get(("in", "'")) and v.get(("in", '"')),
+              lambda o, v: o == "text-field", "a value containing both quote characters must become a text field", esc.lineno)
+    if ("in", "\n") in atoms:
+        check("R1.branch-order", "line break in value -> text field", lambda v: v.get(("in", "\n")), lambda o, v: o == "text-field",
+              "a value with a line break must become a text field whatever else it contains", esc.lineno)
+    check("R1.empty-quoted", "len(value) == 0", lambda v: v[("empty",)], lambda o, v: o in ("quoted-empty", "quoted-'", 'quoted-"'),
+          "an empty value must be written as a quoted empty string", esc.lineno)
+
+
 def run(ctx):
     s = ctx.src(CIF)
     # ---------------- R1a line-start triggers vs _escape -----------------
@@ -193,30 +361,10 @@ def run(ctx):
     ctx.floor("line-start-triggers", len(triggers), 5)
     esc = s.func("_escape")
     pname = param_names(esc)[0]
-    guards = escape_guards(esc, pname)
-    ctx.need(guards, "guards of _escape")
-    ctx.need(any(b for _, _, b, _ in guards) or any(
-        isinstance(n, ast.Return) and isinstance(n.value, ast.Name) and n.value.id == pname
-        for n in ast.walk(esc)), "_escape returns the bare value on some path")
     # the first column of a looped row starts the line: the joined row is stripped
     looped = s.func("CIFCategory._serialize_looped")
     ctx.need(any((call_name(c) or "") == "_escape" for c in calls(looped)),
              "_serialize_looped escapes elements with _escape")
-    for (kind, lit), sites in sorted(triggers.items()):
-        if lit in ("'", '"'):
-            # quote characters are 'anywhere' triggers, handled below
-            continue
-        g = quoting_guard_for(guards, kind, lit)
-        readers = ",".join(sorted({fn for fn, _ in sites}))
-        ctx.ob(
-            "R1.line-start-quoted", CIF, "_escape",
-            f"{kind} {lit!r} (read by {readers})",
-            g is not None,
-            f"the reader treats a line starting with {lit!r} specially ({readers}) but _escape "
-            f"writes a value starting with {lit!r} unquoted; in a looped category the first "
-            "column starts the line, so the row is dropped or ends the category",
-            sites[0][1].lineno,
-        )
     # ---------------- R1c anywhere triggers ------------------------------
     split = s.func("_split_one_line")
     anywhere = set()
@@ -229,93 +377,7 @@ def run(ctx):
         if isinstance(n, ast.Constant) and n.value in ("'", '"'):
             anywhere.add(n.value)
     ctx.floor("anywhere-triggers", len(anywhere), 5)
-    for ch in sorted(anywhere):
-        g = quoting_guard_for(guards, "in", ch)
-        ctx.ob("R1.separator-quoted", CIF, "_escape", f"{ch!r} in value", g is not None,
-               f"the tokenizer splits on / interprets {ch!r} but _escape has no quoting branch for it",
-               esc.lineno)
-    # both quote characters -> neither quote style works -> must not use quotes
-    both = None
-    for gk, lits, bare, st in guards:
-        pass
-    for st in ast.walk(esc):
-        if isinstance(st, ast.If) and isinstance(st.test, ast.BoolOp) and isinstance(st.test.op, ast.And):
-            txt = ast.unparse(st.test)
-            if '"\'" in' in txt and "'\"' in" in txt:
-                both = st
-    uses_multiline = both is not None and any(
-        (call_name(c) or "") == "_multiline" for c in ast.walk(both) if isinstance(c, ast.Call)
-    )
-    ctx.ob("R1.both-quotes-text-field", CIF, "_escape", "both quote characters in value",
-           uses_multiline,
-           "a value containing both quote characters must become a text field", esc.lineno)
-    # order: the both-quotes and newline branches precede the single-quote branches
-    order = [ast.unparse(g[3].test) for g in guards]
-    def first_index(pred):
-        for i, t in enumerate(order):
-            if pred(t):
-                return i
-        return None
-    i_nl = first_index(lambda t: "'\\n' in" in t)
-    i_q = first_index(lambda t: t in ('"\'" in %s' % pname, "'\"' in %s" % pname))
-    ctx.ob("R1.branch-order", CIF, "_escape", "newline/both-quotes before single-quote branch",
-           i_nl is not None and i_q is not None and i_nl < i_q
-           and (both is None or order.index(ast.unparse(both.test)) < i_q),
-           "a value with a line break or both quotes must be decided before the one-quote branches",
-           esc.lineno)
-    # quote safety: a branch that wraps the value in quote q must be reached
-    # only when q does not occur in the value
-    chain = []
-    node = next((st for st in esc.body if isinstance(st, ast.If)), None)
-    while node is not None:
-        chain.append(node)
-        node = node.orelse[0] if len(node.orelse) == 1 and isinstance(node.orelse[0], ast.If) else None
-    excluded = set()
-    conj = []  # earlier (a in v and b in v) tests known false
-    n_wrap = 0
-    for st in chain:
-        t = st.test
-        this_in = set()
-        parts = t.values if isinstance(t, ast.BoolOp) and isinstance(t.op, ast.Or) else [t]
-        all_in = True
-        for part in parts:
-            if (isinstance(part, ast.Compare) and len(part.ops) == 1 and isinstance(part.ops[0], ast.In)
-                    and isinstance(part.left, ast.Constant) and isinstance(part.comparators[0], ast.Name)
-                    and part.comparators[0].id == pname):
-                this_in.add(part.left.value)
-            else:
-                all_in = False
-        for r in st.body:
-            if isinstance(r, ast.Return) and isinstance(r.value, ast.BinOp):
-                consts = [c.value for c in ast.walk(r.value) if isinstance(c, ast.Constant) and c.value in ("'", '"')]
-                if len(consts) == 2 and consts[0] == consts[1]:
-                    q = consts[0]
-                    n_wrap += 1
-                    safe = q in excluded
-                    if not safe and len(parts) == 1 and this_in:
-                        # (x in v and q in v) known false, x in v true  =>  q not in v
-                        for a, b in conj:
-                            if (a in this_in and b == q) or (b in this_in and a == q):
-                                safe = True
-                    ctx.ob("R1.quote-char-absent", CIF, "_escape",
-                           f"branch `{ast.unparse(t)}` wraps the value in {q!r}", safe,
-                           f"the value is wrapped in {q!r} on a branch where it may itself contain "
-                           f"{q!r} followed by a blank (the token then ends early)", st.lineno)
-        if all_in and len(parts) >= 1 and not (isinstance(t, ast.BoolOp) and isinstance(t.op, ast.And)):
-            excluded |= this_in
-        if isinstance(t, ast.BoolOp) and isinstance(t.op, ast.And) and len(t.values) == 2:
-            lits = []
-            for part in t.values:
-                if (isinstance(part, ast.Compare) and isinstance(part.ops[0], ast.In)
-                        and isinstance(part.left, ast.Constant)):
-                    lits.append(part.left.value)
-            if len(lits) == 2:
-                conj.append(tuple(lits))
-    ctx.floor("quote-wrapping-branches", n_wrap, 4)
-    # empty string
-    g = quoting_guard_for(guards, "empty", "")
-    ctx.ob("R1.empty-quoted", CIF, "_escape", "len(value) == 0", g is not None,
-           "an empty value must be written as a quoted empty string", esc.lineno)
+    escape_decision_table(ctx, esc, pname, triggers, anywhere)
     # mask tokens: written by as_array/as_item, inferred by CIFColumn.__init__
     col_init = s.func("CIFColumn.__init__")
     inferred = {c.value for c in ast.walk(col_init) if isinstance(c, ast.Constant) and c.value in (".", "?")}
@@ -715,7 +777,7 @@ MUTANTS = [
     elif "'" in value and '"' in value:
         # If both quote types are present, you cannot use them for escaping
         return _multiline(value)
-""", "R1.branch-order"),
+""", "R1.both-quotes-text-field"),
     Mutant("escape-newline-after-single", CIF,
            """    if "\\n" in value:
         # A value with linebreaks must be represented as multiline value
